@@ -340,6 +340,22 @@ theorem asm_butterfly_ok (a0 a1 a2 a3 b0 b1 b2 b3 : Nat)
   subst m0 m1 m2 m3 n0 n1 n2 n3
   exact ⟨_, _, _, _, s0, s1, s2, s3, by limb_eval [FFAsm.Butterfly], g0, g1, g2, g3, h0, h1, h2, h3, hr, hs⟩
 
+/-- `Butterfly(a, a)` in the assembly: both arguments the same element.  The routine loads the operands into
+registers first, stores `b` (the difference) and then `a` (the sum): the sum survives. -/
+theorem asm_butterfly_ab_ok (a0 a1 a2 a3 : Nat)
+    (ha0 : a0 < W) (ha1 : a1 < W) (ha2 : a2 < W) (ha3 : a3 < W) (ha : val4 a0 a1 a2 a3 < Q) :
+    ∃ r0 r1 r2 r3, FFAsm.Butterfly_ab a0 a1 a2 a3 = (r0, r1, r2, r3) ∧
+      r0 < W ∧ r1 < W ∧ r2 < W ∧ r3 < W ∧
+      val4 r0 r1 r2 r3 = (val4 a0 a1 a2 a3 + val4 a0 a1 a2 a3) % Q := by
+  obtain ⟨t0, c0, t1, c1, t2, c2, t3, c3, d0, k0, d1, k1, d2, k2, d3, k3, r0, r1, r2, r3,
+    p0, p1, p2, p3, e0, e1, e2, e3, m0, m1, m2, m3, g0, g1, g2, g3, hlt, hr⟩ :=
+    addred_core a0 a1 a2 a3 a0 a1 a2 a3 ha0 ha1 ha2 ha3 ha0 ha1 ha2 ha3 ha ha
+  obtain ⟨d0', k0', d1', k1', d2', k2', d3', k3', m0', m1', m2', m3', s0, c0', s1, c1', s2, c2', s3, c3',
+    e0', e1', e2', e3', n0, n1, n2, n3, q0, q1, q2, q3, h0, h1, h2, h3, hs⟩ :=
+    sub_core a0 a1 a2 a3 a0 a1 a2 a3 ha0 ha1 ha2 ha3 ha0 ha1 ha2 ha3 ha ha
+  subst m0 m1 m2 m3 n0 n1 n2 n3
+  exact ⟨_, _, _, _, by limb_eval [FFAsm.Butterfly_ab], g0, g1, g2, g3, hr⟩
+
 /-! ### Montgomery multiplication with MULX / ADCX / ADOX -/
 
 /-- iteration 0 of the ADX multiplication: `(t, A) := x · y` (`MULXQ` + one `ADOXQ` chain) -/
